@@ -522,6 +522,15 @@ fn pair_requests(a: &Rose, b: &Rose, rng: &mut Rng, q: &mut Q, rep: &mut Report,
             if all_lens(a) && all_lens(b) && cmp.is_ok() {
                 rep.oracle("rf-reject", "compare_topologies", &sig_case, "accepted");
             }
+            // a refused comparison leaves BOTH objects as they were: each still answers like a freshly built copy of itself
+            for (which, obj, r) in [("receiver", &ta, a), ("argument", &tb, b)] {
+                let own = obj.get_partitions().map(|p| p.len()).map_err(|_| ());
+                let fr = fresh(r).get_partitions().map(|p| p.len()).map_err(|_| ());
+                let z = real_rf(obj, &fresh(r));
+                if own != fr || z != "ok 0" {
+                    rep.oracle("rf-reject", "object-changed-by-a-refused-comparison", &sig_case, &format!("{which}: get_partitions {own:?} (fresh {fr:?}), rf against a fresh copy of itself {z}"));
+                }
+            }
             return;
         }
         if rf_ab != rf_ba {
@@ -886,12 +895,40 @@ pub fn run_pairs(prop: &str, thorough: bool, seed: u64, driver: &str, rep: &mut 
                 let mode = if weighted { if i % 6 == 0 { LenMode::Mixed } else { LenMode::All } } else { *rng.pick(&[LenMode::All, LenMode::None]) };
                 relabel_lengths(&mut rng, &mut a, mode);
                 relabel_lengths(&mut rng, &mut b, mode);
+                // exactly ONE length missing in one of the two trees (a terminal or an internal branch), everything else present:
+                // the answer depends on which side lacks it only as far as the definitions say
+                if weighted && i % 8 == 3 {
+                    let target = if rng.chance(1, 2) { &mut a } else { &mut b };
+                    let tips_only = rng.chance(2, 3);
+                    let mut cands = 0usize;
+                    target.for_each(&mut |x, root| if !root && x.len.is_some() && (!tips_only || x.kids.is_empty()) { cands += 1; });
+                    if cands > 0 {
+                        let pick = rng.below(cands);
+                        let mut k = 0usize;
+                        target.for_each_mut(&mut |x, root, _| { if !root && x.len.is_some() && (!tips_only || x.kids.is_empty()) { if k == pick { x.len = None; } k += 1; } }, true, 0);
+                        rep.count("pairs_with_exactly_one_missing_length");
+                    }
+                }
                 #[allow(unused_assignments)]
                 let mut same = true;
                 if !weighted && i % 7 == 0 {
                     // different leaf sets: rename one leaf / drop one leaf
                     same = false;
-                    if rng.chance(1, 2) {
+                    let variant = rng.below(6);
+                    if variant >= 3 {
+                        // one taxon more, sorting after / before every other one (the smaller sorted list is then a PREFIX / a
+                        // suffix of the larger one), or the last-sorting taxon renamed: position-wise comparisons of the two sorted
+                        // lists must not stop at the shorter one, nor look at sizes only
+                        let extra = match variant { 3 => "~last", 4 => " first", _ => "~renamed-last" };
+                        if variant == 5 {
+                            let last = rose_leafset(&b).into_iter().max();
+                            b.for_each_mut(&mut |r, _, _| if r.kids.is_empty() && r.name == last { r.name = Some(extra.into()); }, true, 0);
+                        } else {
+                            let at = rng.below(b.kids.len() + 1);
+                            b.kids.insert(at, Rose { name: Some(extra.into()), len: Some(1.0), comment: None, kids: vec![] });
+                        }
+                        rep.count("different_leafsets:prefix-suffix-or-renamed-last");
+                    } else if rng.chance(1, 2) {
                         let mut done = false;
                         b.for_each_mut(
                             &mut |r, _, _| {
@@ -928,6 +965,25 @@ pub fn run_pairs(prop: &str, thorough: bool, seed: u64, driver: &str, rep: &mut 
                             a = rename(&a, &map);
                             b = rename(&b, &map);
                             rep.count("look_alike_leaf_labels");
+                        }
+                    }
+                }
+                // a tree with a REPEATED tip label is not comparable, whichever side it is on: both directions refuse (and
+                // the comparison report with them)
+                if !weighted && i % 23 == 3 && b.n_leaves() >= 3 {
+                    let ls: Vec<String> = rose_leafset(&b).into_iter().collect();
+                    if ls.len() == b.n_leaves() && ls.len() >= 3 && rose_leafset(&a) == rose_leafset(&b) {
+                        let (n1, n2) = (ls[0].clone(), ls[ls.len() - 1].clone());
+                        let dup = rename(&b, &|x: &str| if x == n2 { n1.clone() } else { x.to_string() });
+                        let case = format!("real.build\tapi\t{}\t0\nreal.build2\tapi\t{}\t0\nsp\trf", a.canon(), dup.canon());
+                        rep.case(&case, true);
+                        rep.count("pairs_with_a_repeated_label_on_one_side");
+                        let (ga, gd) = (build_api(&a), build_api(&dup));
+                        let r1 = real_rf(&ga, &gd);
+                        let r2 = real_rf(&build_api(&dup), &build_api(&a));
+                        let r3 = build_api(&a).compare_topologies(&build_api(&dup)).is_ok();
+                        if r1.starts_with("ok") || r2.starts_with("ok") || r3 {
+                            rep.oracle("rf-reject", "repeated-label-on-one-side-accepted", &case, &format!("rf(good,dup)={r1} rf(dup,good)={r2} report accepted={r3}"));
                         }
                     }
                 }
